@@ -32,6 +32,10 @@ type Req struct {
 	CancelMs  int      `json:"cancel_ms"`  // cancel the context after this long (<0 = never)
 	Vars      []string `json:"vars"`       // variables to report after Run
 	Stdin     string   `json:"stdin"`      // "null" (default: /dev/null), "pipe" (a pipe that never delivers)
+	// CancelBytes > 0: cancel the context, deterministically, inside the Write call that brings
+	// stdout to at least that many bytes (the next stop() of the runner sees it).
+	CancelBytes int `json:"cancel_bytes"`
+	HardMs      int `json:"hard_ms"` // watchdog: no return after this long = hang (0 = TimeoutMs + 8 s)
 }
 
 // Resp is what the worker observed.
@@ -52,8 +56,11 @@ type Resp struct {
 const outCap = 1 << 16
 
 type capWriter struct {
-	mu  sync.Mutex
-	buf bytes.Buffer
+	mu      sync.Mutex
+	buf     bytes.Buffer
+	total   int
+	trigger int    // cancel when total >= trigger (0 = never)
+	fire    func() // called once
 }
 
 func (w *capWriter) Write(p []byte) (int, error) {
@@ -65,6 +72,11 @@ func (w *capWriter) Write(p []byte) (int, error) {
 		} else {
 			w.buf.Write(p)
 		}
+	}
+	w.total += len(p)
+	if w.trigger > 0 && w.total >= w.trigger && w.fire != nil {
+		w.fire()
+		w.fire = nil
 	}
 	return len(p), nil
 }
@@ -139,6 +151,7 @@ func RunOne(req Req, dir string, hard time.Duration) (resp Resp) {
 	}
 	done := make(chan result, 1)
 	start := time.Now()
+	start = time.Now()
 	go func() {
 		var res result
 		defer func() {
@@ -151,6 +164,12 @@ func RunOne(req Req, dir string, hard time.Duration) (resp Resp) {
 		res.err = r.Run(ctx, file)
 	}()
 	var cancelAt time.Time
+	var byteCancelAt time.Time
+	byteCancelled := false
+	if req.CancelBytes > 0 {
+		out.trigger = req.CancelBytes
+		out.fire = func() { byteCancelAt = time.Now(); byteCancelled = true; cancel() }
+	}
 	var cancelC <-chan time.Time
 	if req.CancelMs >= 0 {
 		cancelC = time.After(time.Duration(req.CancelMs) * time.Millisecond)
@@ -174,6 +193,10 @@ loop:
 		}
 	}
 	resp.ElapsedUs = res.at.Sub(start).Microseconds()
+	if byteCancelled { // set by the runner goroutine before it sent on done
+		resp.Cancelled = true
+		cancelAt = byteCancelAt
+	}
 	if resp.Cancelled {
 		resp.LatencyUs = res.at.Sub(cancelAt).Microseconds()
 	}
@@ -229,6 +252,9 @@ func WorkerMain() {
 			hard := time.Duration(req.TimeoutMs)*time.Millisecond + 8*time.Second
 			if req.TimeoutMs <= 0 {
 				hard = 13 * time.Second
+			}
+			if req.HardMs > 0 {
+				hard = time.Duration(req.HardMs) * time.Millisecond
 			}
 			resp := RunOne(req, sub, hard)
 			enc.Encode(resp)
@@ -303,6 +329,9 @@ func (w *worker) do(req Req) (Resp, bool) {
 	to := time.Duration(req.TimeoutMs)*time.Millisecond + 13*time.Second
 	if req.TimeoutMs <= 0 {
 		to = 18 * time.Second
+	}
+	if req.HardMs > 0 {
+		to = time.Duration(req.HardMs)*time.Millisecond + 5*time.Second
 	}
 	select {
 	case r := <-ch:
